@@ -9,7 +9,7 @@ func propSpecs() map[string]*PropSpec {
 	add := func(p *PropSpec) { m[p.ID] = p }
 	seeds := func(h string, n int64) []RunSpec {
 		var r []RunSpec
-		for i := int64(0); i < 18; i++ {
+		for i := int64(0); i < 20; i++ {
 			r = append(r, rs(h, i, n))
 		}
 		return r
@@ -38,20 +38,20 @@ func propSpecs() map[string]*PropSpec {
 		Bounds: map[string]string{"quick": "56 library call groups on 2 symbolic bytes", "thorough": "same"},
 	})
 	var c09long []RunSpec
-	for f := int64(0); f < 17; f++ {
+	for f := int64(0); f < 19; f++ {
 		c09long = append(c09long, rs("H_C09long", f, 20))
 	}
 	var c09long2 []RunSpec
-	for f := int64(0); f < 17; f++ {
+	for f := int64(0); f < 19; f++ {
 		c09long2 = append(c09long2, rs("H_C09long", f, 70))
 	}
 	add(&PropSpec{
 		ID: "C09", Title: "lexer partitions the source into the documented tokens",
-		Quick: append(append([]RunSpec{}, c09long...), []RunSpec{rs("H_C09", 6, 9), rs("H_C09", 0, 0), rs("H_C09", 1, 0), rs("H_C09", 2, 0), rs("H_C09", 3, 0), rs("H_C09", 3, 1), rs("H_C09", 6, 2), rs("H_C09", 5, 3), rs("H_C09", 4, 4), rs("H_C09", 4, 6), rs("H_C09", 8, 8)}...),
-		Thorough: append(append([]RunSpec{}, c09long2...), []RunSpec{rs("H_C09", 7, 9), rs("H_C09", 0, 0), rs("H_C09", 1, 0), rs("H_C09", 2, 0), rs("H_C09", 3, 0), rs("H_C09", 4, 0),
+		Quick: append(append([]RunSpec{}, c09long...), []RunSpec{rs("H_C09lex", 2), rs("H_C09lex", 3), rs("H_C09", 6, 9), rs("H_C09", 0, 0), rs("H_C09", 1, 0), rs("H_C09", 2, 0), rs("H_C09", 3, 0), rs("H_C09", 3, 1), rs("H_C09", 6, 2), rs("H_C09", 5, 3), rs("H_C09", 4, 4), rs("H_C09", 4, 6), rs("H_C09", 8, 8)}...),
+		Thorough: append(append([]RunSpec{}, c09long2...), []RunSpec{rs("H_C09lex", 2), rs("H_C09lex", 3), rs("H_C09lex", 4), rs("H_C09", 7, 9), rs("H_C09", 0, 0), rs("H_C09", 1, 0), rs("H_C09", 2, 0), rs("H_C09", 3, 0), rs("H_C09", 4, 0),
 			rs("H_C09", 4, 1), rs("H_C09", 8, 2), rs("H_C09", 7, 3), rs("H_C09", 6, 4), rs("H_C09", 5, 6), rs("H_C09", 9, 8)}...),
-		Covers: []string{"has-token", "two-tokens", "number", "string", "quoted-ident", "error-token", "ident", "float-value-checked", "hex-number", "long-checked", "integer-float-checked"},
-		Bounds: map[string]string{"quick": "all byte strings of length <= 3 (full byte range); focused alphabets: numbers <= 3, strings/escapes <= 6, names/backticks/comments <= 5, operators <= 4, layout and odd bytes <= 4, two-literal alphabet {quote backslash t newline a} <= 8, escapes before multi-byte characters {quote backslash C3 A9 a backtick} <= 6; 17 framed families: 2-3 arbitrary bytes around a run of one repeated character of every length 0..20 (hex of 1..22 digits incl. 16/17 digits and leading zeros, decimals around 2^63 and 2^64, long fractions and exponents, long strings, quoted and plain names, comments); in the numeric families the arbitrary bytes are case-split to concrete digits (64-bit conversion to decimal stalls bit-blasting)",
+		Covers: []string{"has-token", "two-tokens", "number", "string", "quoted-ident", "error-token", "ident", "float-value-checked", "hex-number", "long-checked", "integer-float-checked", "lexeme-sequences"},
+		Bounds: map[string]string{"quick": "all byte strings of length <= 3 (full byte range); focused alphabets: numbers <= 3, strings/escapes <= 6, names/backticks/comments <= 5, operators <= 4, layout and odd bytes <= 4, two-literal alphabet {quote backslash t newline a} <= 8, escapes before multi-byte characters {quote backslash C3 A9 a backtick} <= 6; every sequence of <= 3 lexemes from 21 context-sensitive candidates (keywords, $left/$right, dot, signs, exponent tails, quotes, comment opener, newline) joined directly or by a space; 19 framed families: 2-3 arbitrary bytes around a run of one repeated character of every length 0..20 (hex of 1..22 digits incl. 16/17 digits and leading zeros, decimals around 2^63 and 2^64, long fractions and exponents, long strings, quoted and plain names, comments); in the numeric families the arbitrary bytes are case-split to concrete digits (64-bit conversion to decimal stalls bit-blasting)",
 			"thorough": "all byte strings of length <= 4 (full byte range); numbers <= 4, strings <= 8, names <= 7, operators <= 6, layout <= 5; framed families with runs 0..70; multi-byte escapes <= 7"},
 		Outside: []string{"sources longer than the bound", "BasicLit.Float64/Uint64 of float literals whose value needs more than one rounding step (decimal exponent beyond +-22 or mantissa >= 2^53); the others are decided per concrete spelling (floating point is outside the solver's theories: the spelling is enumerated, the accessor executed concretely)", "string values containing invalid UTF-8 together with an escape (don't-care)"},
 		Stubs:   []string{"unicode.IsSpace -> models.IsSpace (validated against the real table)", "utf8 decode/encode: engine model of the Go specification", "strings.{TrimLeft,ReplaceAll,ContainsAny} -> models", "strconv.{ParseUint,FormatUint} -> models", "fmt.Sprintf: error texts opaque"},
@@ -59,7 +59,7 @@ func propSpecs() map[string]*PropSpec {
 	deep := func(n int64, budget int, fams ...int64) []RunSpec {
 		var r []RunSpec
 		if len(fams) == 0 {
-			for f := int64(0); f < 28; f++ {
+			for f := int64(0); f < 32; f++ {
 				fams = append(fams, f)
 			}
 		}
@@ -84,7 +84,7 @@ func propSpecs() map[string]*PropSpec {
 			rs("H_C12tok", 1, 0), rs("H_C12tok", 2, 0), rs("H_C12tok", 3, 0), rs("H_C12tok", 4, 2), rs("H_C12tok", 5, 2), rs("H_C12tok", 6, 4), rs("H_C12tok", 7, 4),
 			rs("H_C12names", 0), rs("H_C12names", 1), rs("H_C12names", 2), rs("H_C12names", 3), rs("H_C12names", 4), rs("H_C12names", 5), rs("H_C12names", 6), rs("H_C12names", 7)}...),
 		Covers: []string{"has-token", "parsed", "parse-error", "compiled", "compile-error", "walked", "has-semicolon-token", "kilobytes", "long-bytes"},
-		Bounds: map[string]string{"quick": "all byte strings of length <= 3, length <= 4 over the bracket/semicolon alphabet; 8 name-collision shapes with arbitrary tokens in the name slots; all token sequences of length <= 4 over the 55-lexeme vocabulary and <= 6 over the 33-lexeme vocabulary; 5 parameter maps; 28 families of deep/long/wide programs (nested parentheses, calls, in-lists, joins with and without conditions, index and sign chains, long sums, pipelines, let chains, column lists, unbalanced and unclosed brackets, error-token runs, empty statements, single lists of many arguments / values / conditions) at nesting/repetition 64 (up to 3.5 KB; the wide ones also at 160) with two arbitrary tokens inside, each path within 25M (60M) interpreted instructions; 17 framed byte-level families (long strings, quoted names, comments, numbers, unterminated literals ending in multi-byte or stray continuation bytes) with runs of every length 0..70, alone and as a where operand",
+		Bounds: map[string]string{"quick": "all byte strings of length <= 3, length <= 4 over the bracket/semicolon alphabet; 8 name-collision shapes with arbitrary tokens in the name slots; all token sequences of length <= 4 over the 55-lexeme vocabulary and <= 6 over the 33-lexeme vocabulary; 6 parameter maps (one with empty and sign-only texts); 32 families of deep/long/wide programs (erroneous cores under indexed parentheses / calls / in-lists, nested parentheses, calls, in-lists, joins with and without conditions, index and sign chains, long sums, pipelines, let chains, column lists, unbalanced and unclosed brackets, error-token runs, empty statements, single lists of many arguments / values / conditions) at nesting/repetition 64 (up to 3.5 KB; the wide ones also at 160) with two arbitrary tokens inside, each path within 25M (60M) interpreted instructions; 17 framed byte-level families (long strings, quoted names, comments, numbers, unterminated literals ending in multi-byte or stray continuation bytes) with runs of every length 0..70, alone and as a where operand",
 			"thorough": "all byte strings of length <= 3, <= 5 over focused alphabets; all token sequences <= 3 over the full vocabulary, <= 5 over 55 lexemes, <= 7 over 33 lexemes; deep/long families at 128 (all) and 320 (the linear ones, up to 18 KB), each path within 100M interpreted instructions"},
 		Outside: []string{"inputs beyond the bounds", "the wall-clock clause in general (a complexity claim): decided only for the listed deep/long families, as an instruction bound per path plus a native replay under a 5 s watchdog when the bound is exceeded", "step budget per path 400000 SSA instructions for the short inputs: exhaustion is replayed natively under a 5 s watchdog"},
 		Stubs:   []string{"parser.Scan summarised on token-slot sources from tables derived on this run from the real Scan (one-token locality validated on all lexeme pairs)"},
@@ -104,7 +104,7 @@ func propSpecs() map[string]*PropSpec {
 		Quick:    append(tokRuns("H_C08", 6, 0), seeds("H_C08seed", 1)...),
 		Thorough: append(append(tokRuns("H_C08", 7, 0), seeds("H_C08seed", 1)...), seeds("H_C08seed", 2)...),
 		Covers:   []string{"accepted", "rejected"},
-		Bounds: map[string]string{"quick": "all token sequences of length <= 6 over the full 78-lexeme vocabulary (error lexemes included); 18 seed programs of 6-30 tokens with one arbitrary corruption (delete / insert arbitrary token / replace by arbitrary token / duplicate / transpose / truncate at an arbitrary position)",
+		Bounds: map[string]string{"quick": "all token sequences of length <= 6 over the full 78-lexeme vocabulary (error lexemes included); 20 seed programs of 6-30 tokens with one arbitrary corruption (delete / insert arbitrary token / replace by arbitrary token / duplicate / transpose / truncate at an arbitrary position)",
 			"thorough": "all token sequences of length <= 7; seeds with one and two corruptions"},
 		Outside: []string{"longer uncorrupted token soups", "lexeme-internal corruption (C09 covers the lexer)"},
 		Stubs:   []string{tokStub},
@@ -114,7 +114,7 @@ func propSpecs() map[string]*PropSpec {
 		Quick:    append(append(append(tokRuns("H_C10", 5, 0), seeds("H_C10seed", 1)...), tokRuns("H_C10err", 4, 0)...), append(seeds("H_C10errseed", 1), rs("H_C10tab", 0), rs("H_C10tab", 1), rs("H_C10tab", 2), rs("H_C10tab", 3), rs("H_C10tab", 4))...),
 		Thorough: append(append(append(append(tokRuns("H_C10", 6, 0), seeds("H_C10seed", 1)...), seeds("H_C10seed", 2)...), tokRuns("H_C10err", 5, 0)...), append(seeds("H_C10errseed", 2), rs("H_C10tab", 0), rs("H_C10tab", 1), rs("H_C10tab", 2), rs("H_C10tab", 3), rs("H_C10tab", 4))...),
 		Covers:   []string{"accepted", "rejected", "spans-checked", "partial-tree", "position-checked", "compile-error-message"},
-		Bounds: map[string]string{"quick": "success part: all accepted token sequences of length <= 5 over the full vocabulary and 18 seed programs with one arbitrary corruption; failure part: all rejected token sequences of length <= 4 and the rejected corruptions of the seeds: every span of the partial tree (fields and Span() of every node) and every line:column prefix of the parse and compile error messages; 5 failing programs with two gaps of 2 arbitrary bytes over {space, tab, newline} (tab stops)",
+		Bounds: map[string]string{"quick": "success part: all accepted token sequences of length <= 5 over the full vocabulary and 20 seed programs with one arbitrary corruption; failure part: all rejected token sequences of length <= 4 and the rejected corruptions of the seeds: every span of the partial tree (fields and Span() of every node) and every line:column prefix of the parse and compile error messages; 5 failing programs with two gaps of 2 arbitrary bytes over {space, tab, newline} (tab stops)",
 			"thorough": "success <= 6, failure <= 5, seeds with one and two corruptions"},
 		Outside: []string{"multi-byte layout between tokens inside token slots (token spans themselves are C09's subject)", "error messages for byte-level garbage (their texts quote symbolic runes and are opaque to the engine)"},
 		Stubs:   []string{tokStub},
@@ -134,7 +134,7 @@ func propSpecs() map[string]*PropSpec {
 		Quick:    append(append(tokRuns("H_C11", 5, 0), seeds("H_C11seed", 1)...), c11deep(48, 100)...),
 		Thorough: append(append(append(tokRuns("H_C11", 6, 0), seeds("H_C11seed", 1)...), seeds("H_C11seed", 2)...), c11deep(128, 300)...),
 		Covers:   []string{"accepted", "walk-checked", "skip-checked", "history-checked", "deep-walk"},
-		Bounds: map[string]string{"quick": "all accepted token sequences of length <= 5 over the full vocabulary; 18 seed programs with one arbitrary corruption; the skipped node index is arbitrary; after every traversal abandoned by a panicking visitor (at the same arbitrary index) the next traversal visits the same nodes; 14 deep program families at nesting 48 and 7 wide ones (lists of 100 arguments / values / conditions / columns / operators) with two arbitrary tokens inside",
+		Bounds: map[string]string{"quick": "all accepted token sequences of length <= 5 over the full vocabulary; 20 seed programs with one arbitrary corruption; the skipped node index is arbitrary; after every traversal abandoned by a panicking visitor (at the same arbitrary index) the next traversal visits the same nodes; 14 deep program families at nesting 48 and 7 wide ones (lists of 100 arguments / values / conditions / columns / operators) with two arbitrary tokens inside",
 			"thorough": "length <= 6; seeds with one and two corruptions"},
 		Outside: []string{"trees deeper or wider than the listed families produce"},
 		Stubs:   []string{tokStub},
@@ -151,7 +151,7 @@ func propSpecs() map[string]*PropSpec {
 			}
 		}
 		for c := int64(0); c <= nCorrupt; c++ {
-			for i := int64(0); i < 34; i++ {
+			for i := int64(0); i < 36; i++ {
 				r = append(r, rs("H_C07seed", i, c))
 			}
 		}
@@ -165,7 +165,7 @@ func propSpecs() map[string]*PropSpec {
 		Quick:    c07(5, 3, 1, 8),
 		Thorough: c07(6, 5, 2, 20),
 		Covers:   []string{"in-grammar", "not-in-grammar", "layout-checked", "synonyms"},
-		Bounds: map[string]string{"quick": "all token sequences of length <= 5 (78 lexemes) the reference grammar derives; operator ladders with <= 3 arbitrary binary operators over 6 operand decorations (sign, call, index, parentheses, in-list); 34 seed programs plain and with one arbitrary corruption; layout: one arbitrary gap of 3 bytes over {space tab newline / NBSP} in 8 seed programs, with and without keyword synonyms",
+		Bounds: map[string]string{"quick": "all token sequences of length <= 5 (78 lexemes) the reference grammar derives; operator ladders with <= 3 arbitrary binary operators over 6 operand decorations (sign, call, index, parentheses, in-list); 36 seed programs plain and with one arbitrary corruption; layout: one arbitrary gap of 3 bytes over {space tab newline / NBSP} in 8 seed programs, with and without keyword synonyms",
 			"thorough": "length <= 6; ladders <= 5 operators; two corruptions; layout on all 20 seeds"},
 		Outside: []string{"programs longer/deeper than the bounds", "constructs deliberately not in the reference grammar (no claim either way): chained indexing a[1][2], a comma before summarize's by", "more than one non-canonical gap at a time"},
 		Stubs:   []string{tokStub, "layout family uses the real lexer (nothing stubbed)"},
@@ -187,7 +187,7 @@ func propSpecs() map[string]*PropSpec {
 		Quick:    c05(5, 1),
 		Thorough: c05(6, 2),
 		Covers:   []string{"compiled", "compile-error", "with-ctes"},
-		Bounds: map[string]string{"quick": "all compiling token sequences of length <= 5 over a 64-lexeme vocabulary (every operator word, generated subquery names as identifiers); 34 seed programs plain and with one arbitrary corruption; 6 name-collision shapes with arbitrary tokens in the name slots",
+		Bounds: map[string]string{"quick": "all compiling token sequences of length <= 5 over a 64-lexeme vocabulary (every operator word, generated subquery names as identifiers); 36 seed programs plain and with one arbitrary corruption; 6 name-collision shapes with arbitrary tokens in the name slots",
 			"thorough": "length <= 6; two corruptions"},
 		Outside: []string{"SQL validity beyond the statement grammar (types, unknown columns)", "pass-through function names that are SQL keywords (passed through by name by contract)", "two subqueries the user gave the same name with as"},
 		Stubs:   []string{tokStub},
@@ -195,10 +195,10 @@ func propSpecs() map[string]*PropSpec {
 	})
 	c04 := func(maxM int64, extra int64, extraPos []int64, nlens int64) []RunSpec {
 		var r []RunSpec
-		const holes = 24
+		const holes = 28
 		// framed long contents first (cheap), then every short content
 		for p := int64(0); p < holes; p++ {
-			r = append(r, rs("H_C04long", p, nlens))
+			r = append(r, RunSpec{Harness: "H_C04long", Args: []int64{p, nlens}, Budget: 40000000})
 		}
 		for m := int64(1); m <= maxM; m++ {
 			for p := int64(0); p < holes; p++ {
@@ -223,7 +223,7 @@ func propSpecs() map[string]*PropSpec {
 		Quick:    c04(3, 4, []int64{0, 6}, 37),
 		Thorough: c04(4, 5, []int64{0, 1, 6, 13, 14, 18}, 45),
 		Covers:   []string{"content-admitted", "compiled", "decoded", "long-content", "reference-value", "number-value-checked"},
-		Bounds: map[string]string{"quick": "24 content positions (the 19 listed next, plus: as-name inside a join's right side and before a later join, number under a sign, number as row count, sort key name; these five with <= 2 arbitrary bytes) and framed long contents at every position (two arbitrary bytes around a run of 'a' of length 0..20, 30..33, 62..65, 126..129, 254..257; numbers: the boundary families of C09 with runs 0..20); values are compared with the reference token language's value, not the lexer's; 19 content positions (strings in where/in/call/let/render value; backtick names as table, join table, column, project/extend/summarize alias, as name, chart type, render property, qualified part; unquoted identifier; number; implicit column name) x every content of <= 3 bytes (full byte range for quoted kinds) admitted by the real lexer inside that one token; <= 4 bytes at two positions; 19 dictionary contents (true, null, count, $left, SQL fragments, ...) at every quoted position",
+		Bounds: map[string]string{"quick": "28 content positions (the 19 listed next, plus: as-name inside a join's right side and before a later join, number under a sign, number as row count, sort key name, string operand of =~, !~, != and strcat; these nine with <= 2 arbitrary bytes) and framed long contents at every position (two arbitrary bytes around a run of 'a' of length 0..20, 30..33, 62..65, 126..129, 254..257; numbers: the boundary families of C09 with runs 0..20); values are compared with the reference token language's value, not the lexer's; 19 content positions (strings in where/in/call/let/render value; backtick names as table, join table, column, project/extend/summarize alias, as name, chart type, render property, qualified part; unquoted identifier; number; implicit column name) x every content of <= 3 bytes (full byte range for quoted kinds) admitted by the real lexer inside that one token; <= 4 bytes at two positions; 19 dictionary contents (true, null, count, $left, SQL fragments, ...) at every quoted position",
 			"thorough": "<= 4 bytes everywhere, <= 5 at six positions; long contents also at 1022..1025 and 4094..4097 bytes"},
 		Outside: []string{"contents between the short bound and the framed long families (arbitrary bytes in the middle of a long content)", "decoding under standard-SQL rules of values containing backslashes (structure is required under both lexers, value fidelity under ClickHouse rules)"},
 		Stubs:   []string{"nothing stubbed: real Scan, Parse, Compile on symbolic bytes"},
@@ -289,10 +289,10 @@ func propSpecs() map[string]*PropSpec {
 	})
 	add(&PropSpec{
 		ID: "C16", Title: "the command-line tool compiles exactly the statements it is given", CLI: true,
-		Quick:    []RunSpec{rs("H_C16", 1, 0), rs("H_C16", 2, 0), rs("H_C16", 1, 2), rs("H_C16", 2, 2), rs("H_C16multi"), rs("H_C16multifail"), {Harness: "H_C16line5k", Budget: 80000000}, {Harness: "H_C16long", Budget: 80000000}},
-		Thorough: []RunSpec{rs("H_C16", 1, 0), rs("H_C16", 2, 0), rs("H_C16", 1, 2), rs("H_C16", 2, 2), rs("H_C16", 3, 1), rs("H_C16", 3, 2), rs("H_C16multi"), rs("H_C16multifail"), {Harness: "H_C16line5k", Budget: 80000000}, {Harness: "H_C16long", Budget: 80000000}},
-		Covers:   []string{"some-output", "some-statement-failed", "unterminated-final", "read-failure", "multi", "multi-read-failure", "line-5k", "long-line", "literal-templates"},
-		Bounds: map[string]string{"quick": "scripts of <= 2 statement slots (9 templates: good/bad/shadowing lets, queries with and without lets, failing query, comment) x 4 separators x line break inside a statement x terminated or not x trailing newline x two read-chunk regimes x read failure at an arbitrary offset (then: non-zero status, the SQL of every statement whose line was read completely is on standard output, and standard output is a prefix of the statements' SQL); scripts of <= 2 slots over 9 templates with comment openers and semicolons inside string literals and quoted identifiers, trailing comments after a let or query (one chunk regime, no read failure); three input files, also with a read failure at an arbitrary offset of any of them; a script with a 9 KB line (must compile); one line of 70 KB",
+		Quick:    []RunSpec{rs("H_C16", 1, 0), rs("H_C16", 2, 0), rs("H_C16", 1, 2), rs("H_C16", 2, 2), rs("H_C16lets", 4), rs("H_C16multi"), rs("H_C16multifail"), {Harness: "H_C16line5k", Budget: 80000000}, {Harness: "H_C16long", Budget: 80000000}},
+		Thorough: []RunSpec{rs("H_C16", 1, 0), rs("H_C16", 2, 0), rs("H_C16", 1, 2), rs("H_C16", 2, 2), rs("H_C16", 3, 1), rs("H_C16", 3, 2), rs("H_C16lets", 4), rs("H_C16lets", 5), rs("H_C16multi"), rs("H_C16multifail"), {Harness: "H_C16line5k", Budget: 80000000}, {Harness: "H_C16long", Budget: 80000000}},
+		Covers:   []string{"some-output", "some-statement-failed", "unterminated-final", "read-failure", "multi", "multi-read-failure", "line-5k", "long-line", "literal-templates", "let-chains"},
+		Bounds: map[string]string{"quick": "scripts of <= 2 statement slots (9 templates: good/bad/shadowing lets, queries with and without lets, failing query, comment) x 4 separators x line break inside a statement x terminated or not x trailing newline x two read-chunk regimes x read failure at an arbitrary offset (then: non-zero status, the SQL of every statement whose line was read completely is on standard output, and standard output is a prefix of the statements' SQL); scripts of <= 2 slots over 9 templates with comment openers and semicolons inside string literals and quoted identifiers, trailing comments after a let or query (one chunk regime, no read failure); every script of 4 statements over 7 let-chain statements (definitions, redefinitions, lets capturing earlier lets, a failing let, queries using them); three input files, also with a read failure at an arbitrary offset of any of them; a script with a 9 KB line (must compile); one line of 70 KB",
 			"thorough": "<= 3 statement slots (three-statement scripts without read failure and with one chunk regime)"},
 		Outside: []string{"main, cobra flag parsing, os.Open/Create, -o, the terminal probe and the mapping of run's error to the exit status (I/O behind os: not encodable; four lines, read)", "an empty piece between two semicolons and an unterminated let at end of input (don't-care: the statement leaves them open)"},
 		Stubs:   []string{"input = harness io.Reader with selector-chosen chunking and failure; output = strings.Builder (engine model); bufio.Scanner interpreted from its source; bytes.IndexByte modelled"},
@@ -344,7 +344,7 @@ func propSpecs() map[string]*PropSpec {
 		Quick:    []RunSpec{big("H_C02", 1, 0), big("H_C02", 1, 2), big("H_C02", 2, 1), big("H_C02", 2, 2), big("H_C02", 3, 1), big("H_C02mix", 3, 2), big("H_C02limits", 2), big("H_C02limits", 3)},
 		Thorough: []RunSpec{big("H_C02", 1, 0), big("H_C02", 1, 3), big("H_C02", 2, 1), big("H_C02", 2, 2), big("H_C02", 2, 3), big("H_C02", 3, 1), big("H_C02", 3, 2), big("H_C02", 4, 1), big("H_C02mix", 3, 2), big("H_C02mix", 3, 3), big("H_C02limits", 2), big("H_C02limits", 3), big("H_C02limits", 4)},
 		Covers:   []string{"compiled", "results-compared", "non-empty-result", "with-ctes", "mix-checked"},
-		Bounds: map[string]string{"quick": "every well-typed sequence of 3 operators over 12 templates (filters on two columns, take 1, limit 2, two sorts, top, project, summarize, extend, count, as) on every 2-row table; pairs of row limits including literals 2^32+1, 2^63, 2^64 and hexadecimal; every well-typed pipeline of <= 2 operators from 31 templates (repeated sort keys, where/filter, project, extend named and unnamed, summarize with and without keys, sort/order with every direction/nulls form, take/limit incl. 0, top, count, as, render with and without properties) on every table T(a,b) of <= 2 rows of nullable integers in {0,1,2}; <= 3 operators on every 1-row table; the empty table for single operators; sequences of <= 3 row limits (literals of different digit counts, leading zeros, top) on every 3-row table",
+		Bounds: map[string]string{"quick": "every well-typed sequence of 3 operators over 12 templates (filters on two columns, take 1, limit 2, two sorts, top, project, summarize, extend, count, as) on every 2-row table; pairs of row limits including literals 2^32+1, 2^63, 2^64 and hexadecimal; every well-typed pipeline of <= 2 operators from 32 templates (render with several properties out of name order, repeated sort keys, where/filter, project, extend named and unnamed, summarize with and without keys, sort/order with every direction/nulls form, take/limit incl. 0, top, count, as, render with and without properties) on every table T(a,b) of <= 2 rows of nullable integers in {0,1,2}; <= 3 operators on every 1-row table; the empty table for single operators; sequences of <= 3 row limits (literals of different digit counts, leading zeros, top) on every 3-row table",
 			"thorough": "<= 3 operators on <= 2 rows, <= 2 operators on 3 rows, 4 operators on 1 row; the 12-template triples on 3-row tables"},
 		Outside: []string{"ClickHouse's actual executor: both sides are evaluated by reference evaluators with ordered-list semantics (every SELECT preserves its input order unless it has ORDER BY, groups in order of first appearance)", "aliases that shadow an existing column inside one SELECT (programs use fresh names)", "names of columns the program does not state (count, unnamed extend) are compared by position only", "tables wider than 2 columns, values outside {NULL,0,1,2}"},
 		Stubs:   []string{"nothing stubbed in the code under test (real lexer, parser, compiler on concrete programs drawn by selectors); cell values are symbolic"},
@@ -363,7 +363,7 @@ func propSpecs() map[string]*PropSpec {
 	})
 	seeds13 := func(n int64) []RunSpec {
 		var r []RunSpec
-		for i := int64(0); i < 34; i++ {
+		for i := int64(0); i < 36; i++ {
 			r = append(r, rs("H_C13seed", i, n))
 		}
 		return r
@@ -373,7 +373,7 @@ func propSpecs() map[string]*PropSpec {
 		Quick:    append(append([]RunSpec{rs("H_C13a", 1, 0), rs("H_C13a", 2, 0), rs("H_C13a", 3, 5)}, tokRuns("H_C13b", 5, 0)...), seeds13(1)...),
 		Thorough: append(append(append([]RunSpec{rs("H_C13a", 1, 0), rs("H_C13a", 2, 0), rs("H_C13a", 3, 0), rs("H_C13a", 5, 5)}, tokRuns("H_C13b", 6, 0)...), seeds13(1)...), seeds13(2)...),
 		Covers:   []string{"accepted", "rejected", "breaks-rule", "keeps-rules", "compiled", "compile-error"},
-		Bounds: map[string]string{"quick": "either/or: all byte strings of length <= 2, <= 3 focused, 5 parameter maps; exactly-when: all token sequences of length <= 5 over the full vocabulary and 34 seed programs (calls, joins, lets at depth; expression constructs in every operator's argument positions) with one arbitrary corruption",
+		Bounds: map[string]string{"quick": "either/or: all byte strings of length <= 2, <= 3 focused, 6 parameter maps; exactly-when: all token sequences of length <= 5 over the full vocabulary and 36 seed programs (calls, joins, lets at depth; nested built-ins with siblings; a query followed by further statements; expression constructs in every operator's argument positions) with one arbitrary corruption",
 			"thorough": "bytes <= 3 (<= 5 focused); token sequences <= 6; seeds with one and two corruptions"},
 		Outside: []string{"render property values (not an expression position of the rule list)", "parameter maps in the exactly-when part (covered by C06)", "programs beyond the bounds"},
 		Stubs:   []string{tokStub},
